@@ -137,6 +137,12 @@ Example C07_fixed_examples :
     bs "[scrubbed]" ++ [10%N] ++ bs "[scrubbed]" ++ [10%N].
 Proof. exact fixed_examples. Qed.
 
+Example C07_split_nonvacuous :
+  concat [bs "a 1.2."; bs "3.4" ++ [NL] ++ bs "::1 "; bs "x" ++ [NL]] = concat [bs "a 1.2.3.4" ++ [NL]; bs "::1 x" ++ [NL]] /\
+  fst (run_writes (write sc) [] [bs "a 1.2."; bs "3.4" ++ [NL] ++ bs "::1 "; bs "x" ++ [NL]]) =
+    [bs "a [scrubbed]" ++ [NL]; bs "[scrubbed] x" ++ [NL]].
+Proof. vm_compute. split; reflexivity. Qed.
+
 Example C07_incl_nonvacuous : RegexIncl.incl addr_spec pat_A = true.
 Proof. exact c_inclA. Qed.
 
